@@ -2267,6 +2267,8 @@ class _Src:
         detail = ""
         if kind == "ok" and len(head) > 1:
             detail = head[1][:1]
+            if head[1].startswith("Oraised{"):             # x7: an escaping exception object
+                detail = "raised"
         elif kind == "raise":
             detail = head[1]
         return f"src:{args[0]}:{kind}{':' + detail if detail else ''}"
